@@ -105,6 +105,13 @@ def c04(ck, thorough):
     # one DFA row filled from a sparse NFA state through the byte classes (sparse_iter)
     mc(ck, "ACDfaRow", "c04_dfarow", {"MaxByte": 6 if thorough else 5, "NextIds": "{3, 7}"},
        ["OncePerClass", "RowCorrect", "RepInClass", "ClassesRespectTransitions"])
+    # the noncontiguous NFA's two copies of its transitions (link chain, class-indexed dense copy for
+    # states within dense_depth), byte classes, start-state set-up: lookup = intended transition
+    mc(ck, "ACStore", "c04_store",
+       {"NB": 5 if thorough else 4, "MaxStates": 9 if thorough else 7,
+        "DenseDepths": "{0, 1, 2, 3, 4}" if thorough else "{0, 1, 2, 3}", "CIs": tla_set([False, True])},
+       ["ChainSorted", "StartChainsAligned", "LookupOK", "ChainLookupOKTrie", "ClassUniform",
+        "PatternBytesAlone", "AnchoredMirror"])
     fams = ["f23", "ci", "shapes", "edge", "classes", "rand:%d:12:8" % (600 if thorough else 80)]
     if thorough:
         fams += ["f33", "ci3", "shapesbig", "classesbig"]
@@ -260,8 +267,8 @@ def c16(ck, thorough):
     mc(ck, "ACShuffle", "c16_shuffle", {"MaxStates": 12 if thorough else 10},
        ["RemapCorrect", "Layout", "SwapsArePermutations"])
     # the DFA with both start kinds: interleaved unanchored/anchored copies, remap tables, special ids
-    mc(ck, "ACDfaBoth", "c16_dfaboth", {"MaxStates": 6 if thorough else 5, "Classes": 1},
-       ["TargetsOK", "LayoutOK"])
+    mc(ck, "ACDfaBoth", "c16_dfaboth", {"MaxStates": 6 if thorough else 5, "Classes": 1, "Stride2": 1},
+       ["TargetsOK", "LayoutOK", "FlatOK", "PremultOrderOK", "MatchSlotsOK"])
     mc(ck, "ACSearch", "c16_search", search_consts(ALLK, [False], [False], [False], False),
        SEARCH_INV, ["PositionMonotone"])
     fams = ["f23", "ci", "shapes", "edge", "rand:%d:12:8" % (600 if thorough else 80)]
